@@ -71,16 +71,22 @@ def ledger(funds):
 
 VIEW_OPS = ('getFlowLimit',)
 
+def step_op(op, self_):
+    """an endpoint operation (inl) or an upgrade sent by the owner (inr, Model/TMUpgrade.v)"""
+    if op['op'] == 'upgrade':
+        return '(inr (TUpgrade %s %s %d %s %s %s))' % (H(self_), H(op['service']), op['type'], H(op['tid']), OH(op['operator']), OH(op['token']))
+    return '(inl %s)' % top(op, self_)
+
 def trace_term(j):
     i = j['init']; self_ = i['self']
     steps = [s for s in j['steps'] if s['op']['op'] not in VIEW_OPS]
-    st = '[%s]' % ';\n   '.join('(%s, %s)' % (top(s['op'], self_), expect(s['res'], self_)) for s in steps)
+    st = '[%s]' % ';\n   '.join('(%s, %s)' % (step_op(s['op'], self_), expect(s['res'], self_)) for s in steps)
     return '(tcheck_trace [%s] %s %s %s %d %s %s %s %s\n  %s)' % (
         '; '.join(H(a) for a in i['tracked']), ledger(i['funds']), H(self_), H(i['service']), i['type'], H(i['tid']),
         OH(i['operator']), OH(i['token']), expect(i['res'], self_), st)
 
 HEADER = ('From Coq Require Import String List NArith.\n'
-          'From Ax Require Import Lib.Bytes Lib.Mvx Model.Check Model.Env Model.TokenManager Model.TMCheck.\n'
+          'From Ax Require Import Lib.Bytes Lib.Mvx Model.Check Model.Env Model.TokenManager Model.TMUpgrade Model.TMCheck.\n'
           'Import ListNotations.\nOpen Scope N_scope.\nSet Printing Width 1000000.\nSet Printing Depth 10000000.\n')
 
 def prepare(j):
